@@ -65,14 +65,23 @@ _BASE = {"group_tar": "group_tpr", "group_frr": "group_fnr", "group_trr": "group
 
 def gen_gs(rnd, big=False):
     n_groups = rnd.randint(1, 5)
-    if rnd.random() < 0.3:
+    many = rnd.random() < 0.05
+    if many:
+        n_groups = rnd.randint(11, 24)  # two-digit group counts (string vs numeric ordering of labels)
+    if rnd.random() < 0.3 or many:
         gdtype = "int"
-        labels = rnd.sample(range(0, 9), n_groups)
+        labels = rnd.sample(range(0, 40 if many else 9), n_groups)
     else:
         gdtype = "str"
         labels = rnd.sample(rnd.choice(LABEL_POOLS), n_groups)
+    if big and rnd.random() < 0.35 and not many:
+        # two groups that are each large enough for the Poisson branch of single-pass sampling inside by_group
+        n_groups = 2
+        labels = labels[:1] + [labels[0] + 1 if gdtype == "int" else labels[0] + "2"]
     if big:
-        npos, nneg = rnd.randint(101, 260), rnd.randint(101, 260)
+        npos, nneg = (rnd.randint(210, 300), rnd.randint(210, 300)) if n_groups == 2 and rnd.random() < 0.6 else (rnd.randint(101, 260), rnd.randint(101, 260))
+    elif many:
+        npos, nneg = rnd.randint(20, 60), rnd.randint(20, 60)
     else:
         npos, nneg = rnd.randint(1, 40), rnd.randint(1, 40)
         if rnd.random() < 0.1:
